@@ -7,7 +7,7 @@ from vlib.oracles import dense, quat_to_mat, loguniform, random_unit
 
 ID = "C24"
 LEVEL = "fault_enumeration"
-RULE = ("each case: one scenario (two-body chain with revolute + body-body joint; spring on a revolute joint wound past one turn; "
+RULE = ("each case: one scenario (two-body chain with revolute + body-body joint; spring on a revolute joint wound past one turn; stiff torsional oscillator swinging about a whole number of turns; "
         "ball bouncing / sliding on a plane with friction; two balls with a sphere-sphere contact; point mass on a Maxwell "
         "element) x solver (Rattle, BackwardEuler, Moreau, ScipyIVP where applicable) x split step k. The uninterrupted run of N "
         "steps is compared with: run k steps, deep-copy the system, set_new_initial_state(q_k, u_k, t_k), run N-k steps. quick: 6 "
@@ -27,7 +27,8 @@ META = {
 CASE_TIMEOUT = 600
 WALL_BUDGET = {"quick": 1200, "thorough": 7200}
 SCEN = {"chain": ["Rattle", "BackwardEuler"], "wound": ["Rattle", "BackwardEuler", "ScipyIVP", "Moreau"], "ball": ["Moreau", "Rattle", "BackwardEuler"],
-        "balls": ["Moreau", "Rattle"], "maxwell": ["Rattle", "Moreau", "ScipyIVP"], "carrier": ["Moreau", "BackwardEuler", "Rattle"]}
+        "balls": ["Moreau", "Rattle"], "maxwell": ["Rattle", "Moreau", "ScipyIVP"], "carrier": ["Moreau", "BackwardEuler", "Rattle"],
+        "oscillator": ["Moreau", "Rattle", "BackwardEuler"]}
 GRAV = np.array([0, 0, -9.81])
 DT = 5e-3
 
@@ -40,7 +41,7 @@ def cases(tier, seed):
             for sv_ in solvers:
                 # (wound + Moreau: every split step also in the quick tier - the step in which the joint completes its turn is
                 #  the interesting restart point, and Moreau evaluates the joint at the midpoint, not at the stored state)
-                out.append({"scenario": sc, "solver": sv_, "rep": r, "all_k": tier == "thorough" or (sc == "wound" and sv_ == "Moreau")})
+                out.append({"scenario": sc, "solver": sv_, "rep": r, "all_k": tier == "thorough" or (sc in ("wound", "oscillator") and sv_ == "Moreau")})
     return out
 
 
@@ -76,6 +77,23 @@ def _build(rng, sc, horizon=0.15):
         b1.u0 = np.concatenate([v_h + np.cross(Om_c, r1 - hinge), quat_to_mat(P).T @ Om_c])
         S.add(carrier, b1, j1, Force(GRAV * 1.0, b1, name="g1"))
         info.update({"joint": kindj})
+    elif sc == "oscillator":
+        # body on a revolute joint with a stiff torsional spring, swinging about an angle that is a whole number of turns (or
+        # zero): the relative angle keeps crossing the branch of the joint's turn counting, in both directions, several times
+        P = rng.normal(size=4); P /= np.linalg.norm(P)
+        r1 = random_unit(rng) * 0.6
+        Th = gen.random_spd(rng, 3, 0.02, 0.2)
+        A_J = quat_to_mat(rng.normal(size=4))
+        axis = int(rng.integers(3))
+        e = A_J[:, axis]
+        R1 = quat_to_mat(P)
+        Th_axis = float(e @ (R1 @ Th @ R1.T) @ e + 1.0 * np.linalg.norm(np.cross(r1, e)) ** 2)
+        om = float(rng.uniform(80, 130)); amp = float(rng.uniform(0.15, 0.4)) * (1.0 if rng.random() < 0.5 else -1.0)
+        angle0 = float(rng.integers(-2, 3)) * 2 * np.pi
+        b1 = RigidBody(1.0, Th, q0=np.concatenate([r1, P]), u0=np.concatenate([np.cross(e * amp * om, r1), R1.T @ (e * amp * om)]), name="b1")
+        j1 = Revolute(S.origin, b1, axis, angle0=angle0, r_OJ0=np.zeros(3), A_IJ0=A_J, name="j1")
+        S.add(b1, j1, Force(GRAV * 1.0, b1, name="g1"), Spring(j1, om * om * Th_axis, l_ref=angle0, compliance_form=False, name="torsion"))
+        info.update({"axis": axis, "angle0": angle0, "omega": om, "amplitude": amp})
     elif sc in ("chain", "wound"):
         P = rng.normal(size=4); P /= np.linalg.norm(P)
         r1 = random_unit(rng) * 0.6
